@@ -36,6 +36,8 @@ def gen(rng):
     wm = world.gen_world_model(rng, nfiles=rng.randrange(2, 7), sizes=["tiny", "tiny", "tiny", "k8", "k64"],
                                p_have=1.0 if complete else 0.35, id_hi=400, max_stmts=3, layout_p=0.0 if complete else 0.1,
                                min_missing=0 if complete else rng.choice([0, 1, 1, 2]))
+    if not check and world.cfg_uses_lock(wm["cfg"]) and rng.random() < 0.06:
+        wm["lock"] = core.lock_text(0xFFFFFFFF - rng.randrange(0, 3))   # the ID range runs out during the run
     knobs = {"threads": rng.randrange(1, 5), "config_arg": rng.choice(["rel", "abs"])}
     knobs = scen.env_knobs(rng, knobs)
     base = {"seed": rng.getrandbits(48) | 1, "perm": True, "faults": []}
@@ -167,7 +169,7 @@ def evaluate(wm, knobs, plan, check, ctx, twin=None):
         if ids:
             lk = run["after"].get("proj/Breadlog.lock")
             val = core.read_lock(lk["data"]) if lk and lk["t"] == "f" else None
-            if val is None or val <= max(ids):
+            if (val is None or val <= max(ids)) and not (val == 0 and max(ids) >= 0xFFFFFFFF - 64):
                 V("lock-behind", "IDs up to %d were written but the lock file says %s" % (max(ids), val))
     return viols, True
 
